@@ -219,11 +219,13 @@ CHECKS["C03"] = dict(
          "Encode/Decode; llsym interprets that IR (through libstdc++'s vector/optional/string/array code) with symbolic "
          "field values: Encode bytes == canonical bytes for all values, Decode of an arbitrary buffer of the canonical "
          "length == reference decoding for fixed-size shapes (canonical images of all values otherwise); "
-         "_to_highest_power_of_two runs under pysym with symbolic N in 1..64 (carrier in {8,16,32,64}, >= N).",
+         "_to_highest_power_of_two runs under pysym with symbolic N in 1..64 (carrier in {8,16,32,64}, >= N). The JSON entry "
+         "points StaticSchema::EncodeJson/DecodeJson are interpreted with real nlohmann::json values built from a symbolic area: "
+         "bytes == canonical bytes, decoded JSON == the value.",
     design_ref="DESIGN.md §4 C03",
-    note="Outside the claim: the JSON entry points (FromJson/DecodeJson/EncodeJson, StaticSchema), rpc/service headers "
-         "(compile-only as part of generation), Endianess::Big. Natives: operator new/delete, basic_string::_M_create, "
-         "memcmp/strlen, throw helpers. Counterexamples are recompiled natively with clang++ and g++ and run.",
+    note="Outside the claim: rpc/service headers (compile-only as part of generation), Endianess::Big, NaN payloads, Optional of "
+         "a container through JSON. Natives: operator new/delete, out-of-line basic_string members, red-black tree insertion "
+         "(no rebalancing) / increment, memcmp/strlen, throw helpers. Counterexamples are recompiled natively with clang++ and g++ and run.",
     technique="symbolic execution of clang's LLVM IR of the generated C++ typed codec (own interpreter) + SMT validity vs. canonical bytes",
 )
 
